@@ -16,6 +16,15 @@
              the message mod 4096, shipped with every call) and drops the n-th one when n > first and (thereafter = 0 or
              (n - first) mod thereafter <> 0) (C05/Sampling.v: check_s, ctr_dec below)
      hook cfg = (0) nil | (1) WriteThenNoop | (2) WriteThenGoexit | (3) WriteThenPanic | (4) WriteThenFatal | (5 k) custom hook k
+                | (6 k mode) custom hook k that first logs through an unrelated logger (noise below), only then looks at the
+                  *CheckedEntry it was handed and does what the entry says: mode 0 return | 1 WriteThenPanic.OnWrite(ce, fields)
+                  | 2 WriteThenGoexit.OnWrite | 3 switch ce.Level { Fatal: Goexit; Panic, DPanic: panic(ce.Message); default:
+                  return } (one hook object installed for both levels) | 4 WriteThenFatal.OnWrite
+     noise (element 8, may be absent) = (#name nested yields conc): the logger is Named(name); every custom terminal hook of
+             kind 6, every zap.Hooks entry hook, every sink and every marshaler of the entry makes `nested` log calls through
+             an unrelated logger (and `yields` runtime.Gosched() calls) before it looks at anything; conc <> 0: another
+             goroutine logs on yet another logger all the while (2: under GOMAXPROCS(1)).  The model runs the calls through
+             the CheckedEntry pool of C06/Pool.v with these calls in every gap; the theorems hold for ALL interleavings
      call  = (recv kind suffix level #msg (argshape via #text) (len ...) bucket)
              msg = the message the call's arguments amount to (what fmt / bytes.TrimSpace make of them: an oracle
              the harness ships; may be empty); the last element says how the harness built the arguments (replay only)
@@ -29,7 +38,8 @@
              | (4 (inner ...)) zapcore.NewMultiWriteSyncer
      special input (table): the observation must be the method table
    observation = ((o ...) (flushed ...)):  o = ((ev ...) term pend ((k d) ...)), ev = (0 id) Write | (1 id) Sync | (2 h) hook,
-     term = () | (0 #value) panic with that value | (1) exit status 1 | (2) Goexit | (3 k) custom hook k ran;
+     term = () | (0 #value) panic with that value | (1) exit status 1 | (2) Goexit | (3 k) custom hook k ran
+            | (4 k term') hook k of kind 6 ran and then control was lost / returned as term' says;
      pend = for every leaf that has a stack, for every recording sink below it: the number of bytes the IO core has
             written so far that the sink has NOT committed at the moment control is lost / the call returns
             (in-process: in the terminal hook, in recover, in the deferred function; child processes: what is
@@ -39,11 +49,13 @@
             decisions from the observation (WHICH entries a sampler drops is C11's) and demands the delivery to every
             accepting core that is not beneath a sampler that reported a drop; the model predicts the decisions with
             sampler.go's counters;
+     a fifth component of o: (seen ...) = (level #message #loggerName) of the entry every zap.Hooks entry hook was handed
+            and, last, of the *CheckedEntry a custom terminal hook (kind 5 or 6) found when it looked;
      flushed (child-process cases only) = lines found in the file behind each leaf's buffered sink *)
 From Coq Require Import List ZArith Bool Lia Arith.
 From Coq.Strings Require Import Byte.
 Import ListNotations.
-From Zap Require Import Base.Wire C05.Cores C05.Sampling C05.Model.
+From Zap Require Import Base.Wire C05.Cores C05.Sampling C05.Model C06.Pool.
 Open Scope Z_scope.
 
 (* ---------------- front-end methods ---------------- *)
@@ -96,15 +108,15 @@ Definition fam_of (m : method) : fam :=
   end.
 
 (* ---------------- logger configuration ---------------- *)
-Inductive hookcfg := HNil | HNoop | HGoexit | HPanic | HFatal | HCustom (k : nat).
-Inductive action := APanic | AExit | AGoexit | ACustom (k : nat).
+Inductive hookcfg := HNil | HNoop | HGoexit | HPanic | HFatal | HCustom (k : nat) | HHook (k : nat) (mode : Z).
+Inductive action := APanic | AExit | AGoexit | ACustom (k : nat) | AHook (k : nat) (mode : Z).
 Record logger := { lcore : core; dev : bool; on_panic : hookcfg; on_fatal : hookcfg }.
 
 (* terminalHookOverride(defaultHook, override) *)
 Definition override (default : action) (h : hookcfg) : action :=
   match h with
   | HNil | HNoop => default
-  | HGoexit => AGoexit | HPanic => APanic | HFatal => AExit | HCustom k => ACustom k
+  | HGoexit => AGoexit | HPanic => APanic | HFatal => AExit | HCustom k => ACustom k | HHook k m => AHook k m
   end.
 (* the switch on ent.Level in Logger.check *)
 Definition after_hook (lg : logger) (l : level) : option action :=
@@ -299,18 +311,54 @@ Definition enc_method (m : method) : sx := SL [SZ (enc_recv (m_recv m)); SZ (enc
 
 Definition dec_hook (s : sx) : hookcfg :=
   match sx_z (sx_nth s 0) with
-  | 0 => HNil | 1 => HNoop | 2 => HGoexit | 3 => HPanic | 4 => HFatal | _ => HCustom (sx_n (sx_nth s 1))
+  | 0 => HNil | 1 => HNoop | 2 => HGoexit | 3 => HPanic | 4 => HFatal
+  | 6 => HHook (sx_n (sx_nth s 1)) (sx_z (sx_nth s 2))
+  | _ => HCustom (sx_n (sx_nth s 1))
   end.
 Definition enc_ev (e : ev) : sx :=
   match e with EWrite i => SL [SZ 0; of_nat i] | ESync i => SL [SZ 1; of_nat i] | EHook h => SL [SZ 2; of_nat h] end.
 Definition dec_ev (s : sx) : ev :=
   match sx_z (sx_nth s 0) with 0 => EWrite (sx_n (sx_nth s 1)) | 1 => ESync (sx_n (sx_nth s 1)) | _ => EHook (sx_n (sx_nth s 1)) end.
-Definition enc_term (a : option action) (pv : option bytes) : sx :=
+(* ---------------- the terminal action works on the *CheckedEntry it is handed ----------------
+   CheckWriteAction.OnWrite(ce, _): WriteThenPanic does panic(ce.Message).  A custom CheckWriteHook may look at ce
+   (level, message, logger name) and act on what it finds; the hooks of kind 6 do, after logging through another
+   logger.  [saw] = what is in the entry at that moment (C06/Pool.v) *)
+Definition delegate (mode : Z) (saw : entry) : sx :=
+  match mode with
+  | 1 => SL [SZ 0; SB (en_msg saw)]                        (* WriteThenPanic.OnWrite(ce, fields) *)
+  | 2 => SL [SZ 2]                                         (* WriteThenGoexit.OnWrite *)
+  | 3 => if en_level saw =? FatalL then SL [SZ 2]          (* switch ce.Level *)
+         else if (en_level saw =? PanicL) || (en_level saw =? DPanicL) then SL [SZ 0; SB (en_msg saw)]
+         else SL []
+  | 4 => SL [SZ 1]                                         (* WriteThenFatal.OnWrite *)
+  | _ => SL []                                             (* the hook returns; so does the call *)
+  end.
+Definition hook_term (a : option action) (saw : entry) : sx :=
   match a with
   | None => SL []
-  | Some APanic => SL [SZ 0; SB (match pv with Some b => b | None => [] end)]
+  | Some APanic => SL [SZ 0; SB (en_msg saw)]
   | Some AExit => SL [SZ 1] | Some AGoexit => SL [SZ 2] | Some (ACustom k) => SL [SZ 3; of_nat k]
+  | Some (AHook k mode) => SL [SZ 4; of_nat k; delegate mode saw]
   end.
+(* the custom hooks report what they found in the entry *)
+Definition hook_looks (a : option action) : bool :=
+  match a with Some (ACustom _) | Some (AHook _ _) => true | _ => false end.
+Definition enc_entry (e : entry) : sx := SL [SZ (en_level e); SB (en_msg e); SB (en_name e)].
+(* the cores a call writes, one read of ce.Entry each; the entry hooks among them report what they were handed *)
+Fixpoint ncores (evs : list ev) : nat :=
+  match evs with [] => 0%nat | ESync _ :: r => ncores r | _ :: r => S (ncores r) end.
+Fixpoint hook_reads (evs : list ev) (reads : list entry) : list entry :=
+  match evs with
+  | [] => []
+  | EWrite _ :: r => hook_reads r (tl reads)
+  | ESync _ :: r => hook_reads r reads
+  | EHook _ :: r => hd blank reads :: hook_reads r (tl reads)
+  end.
+Record noise := { nz_name : bytes; nz_nested : nat; nz_conc : nat }.
+Definition dec_noise (i : sx) : noise :=
+  let n := sx_nth i 8 in
+  {| nz_name := sx_b (sx_nth n 0); nz_nested := sx_n (sx_nth n 1);
+     nz_conc := if sx_z (sx_nth n 3) =? 0 then 0%nat else S (sx_n (sx_nth n 2)) |}.
 
 Record call := { c_method : method; c_level : level; c_msg : bytes; c_lens : list Z; c_bucket : Z }.
 Definition dec_call (s : sx) : call :=
@@ -352,22 +400,27 @@ Definition enc_pend (ids : list nat) (st : sinks) : sx :=
 (* one call, given the samplers' decisions for it: the events, the terminal action, what every sink below every
    leaf has not committed when the call ends (= when control is lost, if it is), and the decisions of the
    samplers the call reached; the state of the stacks goes on to the next call *)
-Definition model_call (dec : decisions) (w : world) (lg : logger) (ids : list nat) (st : sinks) (cl : call) : sx * sinks :=
+Definition model_call (nz : noise) (dec : decisions) (w : world) (lg : logger) (ids : list nat) (st : sinks) (cl : call) : sx * sinks :=
   let r := front_call_s dec w lg all_io (c_method cl) (c_level cl) (c_msg cl) in
   let st' := run_evs (c_lens cl) st (fst (fst r)) in
-  (SL [SL (map enc_ev (fst (fst r))); enc_term (snd (fst r)) (snd r); enc_pend ids st';
-       SL (map (enc_report dec) (call_consulted dec w (lcore lg) (fam_of (c_method cl)) (c_level cl)))], st').
+  (* the entry goes through the CheckedEntry pool, with the log calls of hooks, sinks, marshalers and of the other
+     goroutine in every gap: what the cores are handed and what the terminal action finds in the entry *)
+  let seen := wire_seen false {| en_level := c_level cl; en_msg := c_msg cl; en_name := nz_name nz |}
+                        (ncores (fst (fst r))) (nz_nested nz) (nz_conc nz) in
+  (SL [SL (map enc_ev (fst (fst r))); hook_term (snd (fst r)) (snd seen); enc_pend ids st';
+       SL (map (enc_report dec) (call_consulted dec w (lcore lg) (fam_of (c_method cl)) (c_level cl)));
+       SL (map enc_entry (hook_reads (fst (fst r)) (fst seen) ++ (if hook_looks (snd (fst r)) then [snd seen] else [])))], st').
 (* the calls of a case, one after the other on the same logger: the decisions of the call at hand come from the
    counters (ps = (first, thereafter) of every sampler); afterwards every sampler the call reached has counted
    the entry *)
-Fixpoint model_calls (ps : list (Z * Z)) (ctr : ctrs) (w : world) (lg : logger) (ids : list nat) (st : sinks)
+Fixpoint model_calls (nz : noise) (ps : list (Z * Z)) (ctr : ctrs) (w : world) (lg : logger) (ids : list nat) (st : sinks)
     (cls : list call) : list sx :=
   match cls with
   | [] => []
   | cl :: r => let b := c_bucket cl in
                let dec := ctr_dec ctr ps (c_level cl) b in
-               let o := model_call dec w lg ids st cl in
-               fst o :: model_calls ps (ctr_bump ctr (call_consulted dec w (lcore lg) (fam_of (c_method cl)) (c_level cl)) (c_level cl) b)
+               let o := model_call nz dec w lg ids st cl in
+               fst o :: model_calls nz ps (ctr_bump ctr (call_consulted dec w (lcore lg) (fam_of (c_method cl)) (c_level cl)) (c_level cl) b)
                                     w lg ids (snd o) r
   end.
 
@@ -380,7 +433,7 @@ Definition model (i : sx) : sx :=
   let child := sx_bool (sx_nth i 5) in
   let stks := dec_stacks i in
   let ids := sk_ids (lcore lg) stks in
-  SL [SL (model_calls ps [] w0 lg ids (sk_init ids stks) calls);
+  SL [SL (model_calls (dec_noise i) ps [] w0 lg ids (sk_init ids stks) calls);
       SL (match calls with
           | [cl] => if child then
                       map (fun id => of_nat (flushed_lines id (fst (log_call_s (ctr_dec [] ps (c_level cl) (c_bucket cl)) w0 lg all_io (fam_of (c_method cl)) (c_level cl))) 0 0))
@@ -392,7 +445,7 @@ Definition model (i : sx) : sx :=
 (* ---------------- the oracle (written against C05's path specification) ---------------- *)
 (* the terminal action a call at level l must end with *)
 Definition hook_or (default : action) (h : hookcfg) : action :=
-  match h with HGoexit => AGoexit | HPanic => APanic | HFatal => AExit | HCustom k => ACustom k | HNil | HNoop => default end.
+  match h with HGoexit => AGoexit | HPanic => APanic | HFatal => AExit | HCustom k => ACustom k | HHook k m => AHook k m | HNil | HNoop => default end.
 Definition must_end (lg : logger) (l : level) : option action :=
   if existsb (Z.eqb l) [PanicL] then Some (hook_or APanic (on_panic lg))
   else if existsb (Z.eqb l) [FatalL] then Some (hook_or AExit (on_fatal lg))
@@ -420,7 +473,23 @@ Definition spec_term (lg : logger) (l : level) (msg : bytes) : sx :=
   | Some AExit => SL [SZ 1]
   | Some AGoexit => SL [SZ 2]
   | Some (ACustom k) => SL [SZ 3; of_nat k]
+  | Some (AHook k mode) =>
+      (* the hook is handed the entry that was logged - whatever was logged in between - and acts on it *)
+      SL [SZ 4; of_nat k;
+          match mode with
+          | 1 => SL [SZ 0; SB msg]
+          | 2 => SL [SZ 2]
+          | 3 => if l =? FatalL then SL [SZ 2] else SL [SZ 0; SB msg]
+          | 4 => SL [SZ 1]
+          | _ => SL []
+          end]
   end.
+(* every entry hook was handed, and a custom terminal hook finds in the *CheckedEntry, the entry of THIS call: its
+   level, its message, the name of its logger - however many other log calls ran since it was checked *)
+Definition spec_seen (lg : logger) (name : bytes) (cl : call) (evs : list ev) (o : sx) : bool :=
+  sx_eqb o (SL (repeat (SL [SZ (c_level cl); SB (c_msg cl); SB name])
+                       (length (ev_hooks_of evs) +
+                        match must_end lg (c_level cl) with Some (ACustom _) | Some (AHook _ _) => 1 | _ => 0 end))).
 
 (* "so the final message is never left in a buffer": when a call above error level ends - when control
    is lost, if the call is terminal - every recording sink below every leaf the entry was delivered to,
@@ -438,7 +507,7 @@ Definition spec_pend (dec : decisions) (w : world) (lg : logger) (ids : list nat
    during the call excuse the leaves beneath themselves and no other (delivered_s: every root-to-leaf path all of
    whose level filters enable the level and none of whose samplers dropped) - a core next to, before or after a
    sampler that drops, a disabled filter or a declining wrapper still gets the entry *)
-Definition spec_call (w : world) (lg : logger) (ids : list nat) (stks : list ws) (cl : call) (o : sx) : bool :=
+Definition spec_call (name : bytes) (w : world) (lg : logger) (ids : list nat) (stks : list ws) (cl : call) (o : sx) : bool :=
   let evs := map dec_ev (sx_l (sx_nth o 0)) in
   let l := c_level cl in
   let dec := reported_drop (sx_l (sx_nth o 3)) in
@@ -446,11 +515,12 @@ Definition spec_call (w : world) (lg : logger) (ids : list nat) (stks : list ws)
   nat_list_eqb (ev_hooks_of evs) (hooks_due_s dec w (lcore lg) 0 l) &&
   sync_ok (ErrorL <? l) evs &&                                     (* IO cores synced before control is lost *)
   sx_eqb (sx_nth o 1) (spec_term lg l (c_msg cl)) &&               (* and then the terminal action, or none *)
-  spec_pend dec w lg ids stks l (sx_nth o 2).                      (* with nothing left in a buffer *)
-Fixpoint spec_calls (w : world) (lg : logger) (ids : list nat) (stks : list ws) (cls : list call) (os : list sx) : bool :=
+  spec_pend dec w lg ids stks l (sx_nth o 2) &&                    (* with nothing left in a buffer *)
+  spec_seen lg name cl evs (sx_nth o 4).                           (* on the entry that was logged *)
+Fixpoint spec_calls (name : bytes) (w : world) (lg : logger) (ids : list nat) (stks : list ws) (cls : list call) (os : list sx) : bool :=
   match cls, os with
   | [], [] => true
-  | cl :: r, o :: os' => spec_call w lg ids stks cl o && spec_calls w lg ids stks r os'
+  | cl :: r, o :: os' => spec_call name w lg ids stks cl o && spec_calls name w lg ids stks r os'
   | _, _ => false
   end.
 Definition count_writes (id : nat) (l : list nat) : nat := length (filter (Nat.eqb id) l).
@@ -462,7 +532,7 @@ Definition spec (i o : sx) : bool :=
   let calls := map dec_call (sx_l (sx_nth i 6)) in
   let child := sx_bool (sx_nth i 5) in
   let stks := dec_stacks i in
-  spec_calls w0 lg (sk_ids (lcore lg) stks) stks calls (sx_l (sx_nth o 0)) &&
+  spec_calls (sx_b (sx_nth (sx_nth i 8) 0)) w0 lg (sk_ids (lcore lg) stks) stks calls (sx_l (sx_nth o 0)) &&
   (* child process running one call: after the process is gone, the file behind every buffered
      sink holds one line per delivery of an entry above error level *)
   (match calls with
